@@ -46,6 +46,10 @@ fn main() {
     let file = std::fs::File::open(&args[1]).expect("case file");
     // keep panic messages out of stderr noise; cases catch panics themselves
     if std::env::var("HARNESS_VERBOSE").is_err() { std::panic::set_hook(Box::new(|_| {})); }
+    // every case runs in a worker thread under a watchdog: a parser that does not terminate must not stall the
+    // run (C05 "never loops"); the case is reported as HARNESS-TIMEOUT and the process exits (the runner resumes
+    // with the next case)
+    let limit: u64 = std::env::var("HARNESS_CASE_TIMEOUT").ok().and_then(|s| s.parse().ok()).unwrap_or(30);
     let stdout = std::io::stdout();
     let mut out = std::io::BufWriter::new(stdout.lock());
     for line in std::io::BufReader::new(file).lines() {
@@ -53,9 +57,29 @@ fn main() {
         if line.is_empty() || line.starts_with('#') {
             continue;
         }
-        let res = std::panic::catch_unwind(|| dispatch(&line));
-        let res = res.unwrap_or_else(|_| "HARNESS-PANIC".to_string());
-        writeln!(out, "{res}").unwrap();
-        out.flush().unwrap(); // a later case may abort the process
+        let secs = if line.starts_with("o_c10") { limit * 30 } else { limit };
+        let (tx, rx) = std::sync::mpsc::channel();
+        let l2 = line.clone();
+        let worker = std::thread::Builder::new().stack_size(8 << 20).spawn(move || {
+            let res = std::panic::catch_unwind(|| dispatch(&l2));
+            let _ = tx.send(res.unwrap_or_else(|_| "HARNESS-PANIC".to_string()));
+        }).expect("spawn");
+        match rx.recv_timeout(std::time::Duration::from_secs(secs)) {
+            Ok(res) => {
+                let _ = worker.join();
+                writeln!(out, "{res}").unwrap();
+                out.flush().unwrap(); // a later case may abort the process
+            }
+            Err(std::sync::mpsc::RecvTimeoutError::Timeout) => {
+                writeln!(out, "HARNESS-TIMEOUT the case did not finish within {secs} s").unwrap();
+                out.flush().unwrap();
+                std::process::exit(3);
+            }
+            Err(std::sync::mpsc::RecvTimeoutError::Disconnected) => {
+                // the worker died without sending (stack overflow aborts the whole process before we get here)
+                writeln!(out, "HARNESS-PANIC worker died").unwrap();
+                out.flush().unwrap();
+            }
+        }
     }
 }
